@@ -993,7 +993,7 @@ func genC18(r *rng, tier string, emit func(string)) {
 			}
 			// a very long run of members inside one indefinite-length element: the end-of-contents test after
 			// each member must look at two bytes, not search the rest of the input
-			long := append([]byte{0x30, 0x80}, bytes.Repeat([]byte{0x04, 0x01, 0x01}, 400000)...)
+			long := append([]byte{0x30, 0x80}, bytes.Repeat([]byte{0x04, 0x01, 0x01}, 1000000)...)
 			g.raw(dec, long, extraOf[dec])
 			g.raw(dec, append(long, 0, 0), extraOf[dec])
 		}
